@@ -9,6 +9,7 @@ import (
 	"net"
 	"os"
 	"os/exec"
+	"reflect"
 	"sort"
 	"strings"
 	"sync"
@@ -445,7 +446,10 @@ func workerMain() {
 			if json.Unmarshal(line, &s) != nil {
 				fmt.Fprintln(wr, `{"error":"bad session"}`)
 			} else {
-				b, _ := json.Marshal(runSession(&s))
+				mapStrings(reflect.ValueOf(&s), fromRunes)
+				res := runSession(&s)
+				mapStrings(reflect.ValueOf(res), toRunes)
+				b, _ := json.Marshal(res)
 				wr.Write(b)
 				wr.WriteByte('\n')
 			}
@@ -481,7 +485,20 @@ func (c *Ctx) RunSession(s *Session) *SessResult {
 	if c.W == nil {
 		c.W = startWorker()
 	}
-	b, _ := json.Marshal(s)
+	enc := *s
+	enc.Steps = append([]Step{}, s.Steps...)
+	for i := range enc.Steps {
+		enc.Steps[i].Args = append([]string{}, enc.Steps[i].Args...)
+	}
+	if s.Cfg.SupportedCaps != nil {
+		enc.Cfg.SupportedCaps = map[string][]string{}
+		for k, v := range s.Cfg.SupportedCaps {
+			enc.Cfg.SupportedCaps[k] = append([]string{}, v...)
+		}
+	}
+	enc.Cfg.WebIRC = append([]string{}, s.Cfg.WebIRC...)
+	mapStrings(reflect.ValueOf(&enc), toRunes)
+	b, _ := json.Marshal(&enc)
 	c.W.in.Write(append(b, '\n'))
 	type rd struct {
 		line []byte
@@ -504,6 +521,7 @@ func (c *Ctx) RunSession(s *Session) *SessResult {
 		if json.Unmarshal(r.line, &res) != nil {
 			fatal("worker: bad result %q", r.line)
 		}
+		mapStrings(reflect.ValueOf(&res), fromRunes)
 		return &res
 	case <-time.After(120 * time.Second):
 		c.W.cmd.Process.Kill()
